@@ -402,6 +402,13 @@ impl DcpsDomainParticipant {
                     return;
                 }
 
+                // A write that will be refused for max_instances (the instance was unregistered and
+                // its slot taken) must not evict the oldest sample first
+                if !data_writer.has_room_for_instance(&instance_handle) {
+                    reply_sender.send(Err(DdsError::OutOfResources));
+                    return;
+                }
+
                 if let Some(s) = data_writer
                     .registered_instance_info
                     .iter_mut()
@@ -665,6 +672,12 @@ impl DcpsDomainParticipant {
                                     continue;
                                 }
                             };
+
+                        // Refuse before evicting, as in write_w_timestamp
+                        if !data_writer.has_room_for_instance(&instance_handle) {
+                            pending.reply_sender.send(Err(DdsError::OutOfResources));
+                            continue;
+                        }
 
                         if let HistoryQosPolicyKind::KeepLast(depth) = data_writer.qos.history.kind
                         {
